@@ -7,6 +7,8 @@
   and caller scratch buffer are outside the sequential model; model = code for log2 n ≤ 30).
 -/
 import GoldilocksVerif.Lemmas.NttTop
+import GoldilocksVerif.Lemmas.BridgeNttTop
+import GoldilocksVerif.Lemmas.BridgeNttBuf
 
 namespace GoldilocksVerif.C04
 open GoldilocksVerif.Model.Ntt GoldilocksVerif.NttSpec Finset
@@ -121,5 +123,86 @@ example : ∃ o y z, mkObj 8 1 = some o ∧
   obtain ⟨y, z, e1, e2, _⟩ := C04_intt_of_ntt 8 1 o ho (by omega) 3 (by omega) 2 (by omega) 3 2 1 1 .other .null
     (Array.replicate (2 ^ 3 * 2) 0#64) #[] (Array.replicate (2 ^ 3 * 2) 5#64) (by simp) (by simp) (by simp)
   exact ⟨o, y, z, ho, e1, e2⟩
+
+/-! ### the model GENERATED from ntt_goldilocks.cpp / .hpp (see Props/C03.lean, DESIGN.NTTGEN.md) -/
+section generated
+open GoldilocksVerif.BridgeNtt Gen.NttGen
+
+/-- generated `INTT` = the model's `intt` (default call shape: no caller scratch buffer, one column block,
+    2 ≤ size = 2^K ≤ 2^30) -/
+theorem C04_generated_INTT_eq_model (fuel : Nat) (hf : 64 ≤ fuel) (hp : Heap) (self : NTT_Goldilocks) (o : Obj)
+    (hrep : ObjRep hp self o) (hin : ObjIn hp self) (D Sx : Nat) (hD : D < hp.size) (hSx : Sx < hp.size) (hD0 : D ≠ 0)
+    (hfrD : ObjFrame self D) (mode : DstMode) (hmode : mode = .other ↔ D ≠ Sx)
+    (dst : Ptr) (hdst : (if (dst == Ptr.null) = true then (⟨Sx, 0⟩ : Ptr) else dst) = ⟨D, 0⟩)
+    (K N NC : Nat) (nphase nblock : BitVec 64) (extend : Bool)
+    (hK1 : 1 ≤ K) (hK : K ≤ 30) (hN : N = 2 ^ K) (hKs : K ≤ o.s) (hos : o.s ≤ 32) (hNC1 : 1 ≤ NC)
+    (hNNC8 : N * NC * 8 < 2 ^ 64) (hext31 : o.extension < 2 ^ 31) (hcache : extend = true → o.rcache ≠ none)
+    (hnb : clampBlock nblock.toNat NC = 1) :
+    match intt o mode (hp.block D) (hp.block Sx) N NC nphase.toNat nblock.toNat extend with
+    | .ok (d, _) => NTT_INTT fuel hp self dst ⟨Sx, 0⟩ (bv N) (bv NC) Ptr.null nphase nblock extend = some (hp.setBlock D d)
+    | .error _ => NTT_INTT fuel hp self dst ⟨Sx, 0⟩ (bv N) (bv NC) Ptr.null nphase nblock extend = none :=
+  INTT_gen fuel hf hp self o hrep hin D Sx hD hSx hD0 hfrD mode hmode dst hdst K N NC nphase nblock extend hK1 hK hN hKs hos hNC1
+    hNNC8 hext31 hcache hnb
+
+/-- **the property on the generated function**: the TRANSLATED `INTT` returns, changes only the destination block, and
+    that block holds the inverse DFT of every column -/
+theorem C04_generated_inverse_transform (maxDomainSize extension : Nat) (o : Obj) (hobj : mkObj maxDomainSize extension = some o)
+    (hext : extension ≤ 1) (d : Nat) (hd1 : 1 ≤ d) (hd30 : d ≤ 30) (hn : 2 ^ d ≤ maxDomainSize)
+    (fuel : Nat) (hf : 64 ≤ fuel) (hp : Heap) (self : NTT_Goldilocks) (hrep : ObjRep hp self o) (hin : ObjIn hp self)
+    (D Sx : Nat) (hD : D < hp.size) (hSx : Sx < hp.size) (hD0 : D ≠ 0) (hfrD : ObjFrame self D)
+    (mode : DstMode) (hmode : mode = .other ↔ D ≠ Sx)
+    (dst : Ptr) (hdst : (if (dst == Ptr.null) = true then (⟨Sx, 0⟩ : Ptr) else dst) = ⟨D, 0⟩)
+    (ncols : Nat) (nphase nblock : BitVec 64) (hnc : 1 ≤ ncols) (hbound : 2 ^ d * ncols * 8 < 2 ^ 64)
+    (hnb : clampBlock nblock.toNat ncols = 1)
+    (hsrc : (hp.block Sx).size = 2 ^ d * ncols) (hdsts : mode = .other → (hp.block D).size = 2 ^ d * ncols) :
+    ∃ out, NTT_INTT fuel hp self dst ⟨Sx, 0⟩ (bv (2 ^ d)) (bv ncols) Ptr.null nphase nblock false = some (hp.setBlock D out) ∧
+      out.size = 2 ^ d * ncols ∧
+      ∀ k c, k < 2 ^ d → c < ncols →
+        den (out.getD (k * ncols + c) 0#64)
+          = ((2 ^ d : Nat) : F)⁻¹ * ∑ j ∈ range (2 ^ d), den ((hp.block Sx).getD (j * ncols + c) 0#64) * (omega d)⁻¹ ^ (j * k) := by
+  have hm : maxDomainSize ≠ 0 := by have := Nat.two_pow_pos d; omega
+  obtain ⟨hs1, hs2, hs3⟩ := mkObj_s_val maxDomainSize extension o hm hobj
+  have hdl : d ≤ log2 maxDomainSize := (Nat.le_log2 hm).mpr hn
+  obtain ⟨out, e, hsz, hdft⟩ := C04_inverse_transform maxDomainSize extension o hobj hext d hn ncols nphase.toNat nblock.toNat
+    hnc mode (hp.block D) (hp.block Sx) hsrc hdsts
+  have hg := INTT_gen fuel hf hp self o hrep hin D Sx hD hSx hD0 hfrD mode hmode dst hdst d (2 ^ d) ncols nphase nblock false
+    hd1 hd30 rfl (by omega) hs2 hnc hbound (by omega) (by intro h; cases h) hnb
+  rw [e] at hg
+  exact ⟨out, hg, hsz, hdft⟩
+
+/-- **the property on the generated function, caller scratch buffer**: the TRANSLATED `INTT` with a buffer block of at least
+    size·ncols words and ANY content returns, changes only the destination and the buffer block, and the destination block
+    holds the inverse DFT of every column -/
+theorem C04_generated_inverse_transform_buffer (maxDomainSize extension : Nat) (o : Obj)
+    (hobj : mkObj maxDomainSize extension = some o) (hext : extension ≤ 1) (d : Nat) (hd1 : 1 ≤ d) (hd30 : d ≤ 30)
+    (hn : 2 ^ d ≤ maxDomainSize)
+    (fuel : Nat) (hf : 64 ≤ fuel) (hp : Heap) (self : NTT_Goldilocks) (hrep : ObjRep hp self o)
+    (D Sx B : Nat) (hD : D < hp.size) (hB : B < hp.size) (hD0 : D ≠ 0) (hB0 : B ≠ 0) (hDB : D ≠ B) (hSB : Sx ≠ B)
+    (hfrD : ObjFrame self D) (hfrB : ObjFrame self B)
+    (dst : Ptr) (hdst : (if (dst == Ptr.null) = true then (⟨Sx, 0⟩ : Ptr) else dst) = ⟨D, 0⟩)
+    (ncols : Nat) (nphase nblock : BitVec 64) (hnc : 1 ≤ ncols) (hbound : 2 ^ d * ncols * 8 < 2 ^ 64)
+    (hnb : clampBlock nblock.toNat ncols = 1)
+    (hsrc : (hp.block Sx).size = 2 ^ d * ncols) (hdsts : (hp.block D).size = 2 ^ d * ncols)
+    (hbuf : 2 ^ d * ncols ≤ (hp.block B).size) :
+    ∃ out X', NTT_INTT fuel hp self dst ⟨Sx, 0⟩ (bv (2 ^ d)) (bv ncols) ⟨B, 0⟩ nphase nblock false =
+        some ((hp.setBlock D out).setBlock B X') ∧
+      out.size = 2 ^ d * ncols ∧
+      ∀ k c, k < 2 ^ d → c < ncols →
+        den (out.getD (k * ncols + c) 0#64)
+          = ((2 ^ d : Nat) : F)⁻¹ * ∑ j ∈ range (2 ^ d), den ((hp.block Sx).getD (j * ncols + c) 0#64) * (omega d)⁻¹ ^ (j * k) := by
+  have hm : maxDomainSize ≠ 0 := by have := Nat.two_pow_pos d; omega
+  obtain ⟨hs1, hs2, hs3⟩ := mkObj_s_val maxDomainSize extension o hm hobj
+  have hdl : d ≤ log2 maxDomainSize := (Nat.le_log2 hm).mpr hn
+  have hO := mkObj_ok maxDomainSize extension o hm hext hobj
+  obtain ⟨out, e, hsz, hdft⟩ := nttIters_inverse o _ hO (hp.block D) (hp.block Sx) (hp.block B) (decide (D = Sx)) d ncols
+    nphase.toNat hdl (by by_cases h : D = Sx <;> simp [h, hsrc, hdsts]) hbuf
+  have hg := INTT_gen_buf fuel hf hp self o hrep D Sx B hD hB hD0 hB0 hDB hSB hfrD hfrB dst hdst d (2 ^ d) ncols nphase nblock
+    false hd1 hd30 rfl (by omega) hs2 hnc hbound (by omega) (by intro h; cases h) hnb
+  rw [e] at hg
+  obtain ⟨X', hX, _⟩ := hg
+  refine ⟨out, X', hX, ?_, hdft⟩
+  rw [hsz]; by_cases h : D = Sx <;> simp [h, hsrc, hdsts]
+
+end generated
 
 end GoldilocksVerif.C04
